@@ -27,10 +27,7 @@ CONTRACTS[M + "add_note"] = dict(
     variants=[dict(
         name="bare-name",
         params={"self": "NoteContainer", "note": "str", "octave": "None", "dynamics": "None"},
-        requires=[("pitch-ordered-duplicate-free", RI),
-                  ("valid-name-without-exotic-spelling",
-                   "is_name(note) and 0 <= base(note[0]) + net(note) and base(note[0]) + net(note) <= 11 and "
-                   "all([0 <= base(n.name[0]) + net(n.name) and base(n.name[0]) + net(n.name) <= 11 for n in self.notes])")],
+        requires=[("pitch-ordered-duplicate-free", RI), ("valid-name", "is_name(note)")],
         old={"old_pitches": "[pitch(n) for n in self.notes]", "old_len": "len(self.notes)",
              "old_top": "(pitch(self.notes[len(self.notes) - 1]) if len(self.notes) > 0 else -1)"},
         ensures=[("still-pitch-ordered-and-duplicate-free", SORTED),
@@ -40,8 +37,8 @@ CONTRACTS[M + "add_note"] = dict(
                  ("voiced-at-or-above-the-top-note-less-than-an-octave-above",
                   "old_len == 0 or any([(pitch(n) - name_pitch(note, 0)) % 12 == 0 and old_top <= pitch(n) and "
                   "pitch(n) < old_top + 12 for n in self.notes])")])],
-    notes="domain: containers holding 0, 1 or 2 notes with ARBITRARY pitches (the operation reads only the top note "
-          "and membership); known finding C12/voicing-exotic-spelling is outside the bare-name precondition",
+    notes="domain: containers holding 0, 1 or 2 notes with ARBITRARY pitches and spellings (the operation reads only the "
+          "top note and membership)",
     properties=["C12"], battery="nc_add")
 
 I = "mingus.containers.instrument.Instrument."
